@@ -37,6 +37,12 @@ dbmulti <7 opt EnzymeBuilder fields> <k> {<protein:hex>}*k <max> <vars> <statics
         (Parameters::digest on a FASTA of k target proteins P0..P(k-1), no decoys, no mass bounds: every database
          entry with its protein list and its `position` field; sorted. Model: Model/C06Db.lean — group_digests groups
          by (position, sequence); equal forms of different groups are merged, proteins united, position = min.)
+modjson <dupfield 0|1> <ns> {<key:hex> <kind> <f32>} <nv> {<key:hex> <kind> <n> <f32>*n}
+   | err:json | ok <ns'> {<kind 0..4> <0|1 r> <f32>} <nv'> {<kind> <0|1 r> <n> <f32>*n}
+        (a JSON search configuration rendered by the harness — members in the given order, repeated keys allowed,
+         value kind 0 = well-typed, other kinds = wrong JSON type / `NaN` literal — through serde into
+         sage_cli::input::Input, then Input::build: the static and variable mod maps of the built Parameters, sorted
+         by specificity. dupfield = the `static_mods` member itself is written twice.)
 All float comparisons are bit-exact (only `+` in a fixed order is involved).
 -/
 namespace Sage.C06
@@ -134,6 +140,21 @@ def formsVerdict (seq : List Nat) (pos : Position) (varsQ staticsQ : List (Targe
   match got.find? (fun fm => decide (absRat (fm.2 - refMass seq fm.1) > massAllowance seq fm.1)) with
   | some _ => "bad:mass_formula"
   | none => "ok"
+
+/-- masses offered only by keys OUTSIDE the documented grammar (which must be dropped, never applied) -/
+def rejectedOnlyMasses (vars : List (List Nat × List Nat)) (statics : List (List Nat × Nat)) : List Rat :=
+  let bad : List Nat := (vars.filter fun km => (grammar.lookup km.1).isNone).flatMap (·.2) ++
+    (statics.filter fun km => (grammar.lookup km.1).isNone).map (·.2)
+  let good : List Nat := (vars.filter fun km => (grammar.lookup km.1).isSome).flatMap (·.2) ++
+    (statics.filter fun km => (grammar.lookup km.1).isSome).map (·.2)
+  (bad.filter fun b => !good.contains b).filterMap ratOfF32Bits
+
+/-- "rejected rather than misapplied": a form that is not a placement and carries a mass that only a key
+    outside the grammar offers means that key was accepted -/
+def refineKeyVerdict (v : String) (rejected : List Rat) (got : List Form) : String :=
+  if v.startsWith "bad:form_not_a_placement" &&
+      got.any (fun f => (f.nterm.toList ++ f.cterm.toList ++ f.mods).any fun m => m != 0 && rejected.contains m)
+  then "bad:invalid_key_accepted" else v
 
 def ratMods (l : List (Target × Nat)) : Option (List (Target × Rat)) :=
   allSome (l.map fun tm => (ratOfF32Bits tm.2).map fun q => (tm.1, q))
@@ -251,6 +272,7 @@ def handle (op : String) (args impl : List String) : Option Reply :=
             if varsQ.any (·.2 == 0) || staticsQ.any (·.2 == 0) then "na" else
             let strict := nodupB (specCands seq pos varsQ)
             let v := formsVerdict seq pos varsQ staticsQ max got strict
+            let v := refineKeyVerdict v (rejectedOnlyMasses vars statics) (got.map (·.1))
             if v != "ok" then v else if strict then "ok" else "na"
           | _, _, _ => "na"
       | _ => "bad:reply_unreadable"
@@ -293,8 +315,71 @@ def handle (op : String) (args impl : List String) : Option Reply :=
             if !(seq.all fun c => Sage.Gen.VALID_AA.contains c) then
               (if got.isEmpty then "ok" else "bad:invalid_sequence_accepted") else
             -- the database merges equal forms: compare with the reference enumeration as sets
-            formsVerdict seq .full varsQ staticsQ max got false
+            refineKeyVerdict (formsVerdict seq .full varsQ staticsQ max got false)
+              (rejectedOnlyMasses vars statics) (got.map (·.1))
           | _, _, _ => "na"
+      | _ => "bad:reply_unreadable"
+    pure (exact model (" ".intercalate impl) spec)
+  | "modjson" => do
+    let (dup, statics, vars) ← run (do
+      let dup ← nat
+      let s ← list (do let k ← key; let kind ← nat; let m ← nat; pure (k, kind, m))
+      let v ← list (do let k ← key; let kind ← nat; let ms ← list nat; pure (k, kind, ms))
+      pure (dup, s, v)) args
+    let targetToks (t : Target) : List Nat :=
+      match t with
+      | .peptideN r => 0 :: (match r with | none => [0] | some x => [1, x])
+      | .peptideC r => 1 :: (match r with | none => [0] | some x => [1, x])
+      | .proteinN r => 2 :: (match r with | none => [0] | some x => [1, x])
+      | .proteinC r => 3 :: (match r with | none => [0] | some x => [1, x])
+      | .residue r => [4, 1, r]
+    let render (ss : List (Target × Nat)) (vs : List (Target × List Nat)) : String :=
+      let srows := (ss.map fun tm => targetToks tm.1 ++ [tm.2]).mergeSort lexLe
+      let vrows := (vs.map fun tm => targetToks tm.1 ++ (tm.2.length :: tm.2)).mergeSort lexLe
+      let out (rows : List (List Nat)) : String :=
+        " ".intercalate (toString rows.length :: rows.map fun r => " ".intercalate (r.map toString))
+      s!"ok {out srows} {out vrows}"
+    let sMembers : List (Member Nat) := statics.map fun (k, kind, m) => (k, if kind == 0 then some m else none)
+    let vMembers : List (Member (List Nat)) := vars.map fun (k, kind, ms) => (k, if kind == 0 then some ms else none)
+    let model : String :=
+      if dup != 0 then "err:json" else
+      match configMods sMembers vMembers with
+      | none => "err:json"
+      | some (ss, vs) => render ss vs
+    -- spec, from the grammar table: the built maps hold exactly the documented keys with their last-written value
+    let malformed := dup != 0 || statics.any (fun x => x.2.1 != 0) || vars.any (fun x => x.2.1 != 0)
+    let lastOf {β : Type} (l : List (List Nat × β)) : List (List Nat × β) :=
+      l.reverse.foldl (fun acc kv => if acc.any (fun a => a.1 == kv.1) then acc else kv :: acc) []
+    let wantS : List (Target × Nat) := (lastOf (statics.map fun x => (x.1, x.2.2))).filterMap fun kv =>
+      (grammar.lookup kv.1).map fun t => (t, kv.2)
+    let wantV : List (Target × List Nat) := (lastOf (vars.map fun x => (x.1, x.2.2))).filterMap fun kv =>
+      (grammar.lookup kv.1).map fun t => (t, kv.2)
+    let rejectedS : List Nat := (statics.filter fun x => (grammar.lookup x.1).isNone).map (·.2.2)
+    let rejectedV : List Nat := (vars.filter fun x => (grammar.lookup x.1).isNone).flatMap (·.2.2)
+    let spec : String :=
+      match impl with
+      | ["err:json"] => if malformed then "ok" else "bad:valid_config_rejected"
+      | "ok" :: rest =>
+        if malformed then "bad:malformed_value_accepted" else
+        let pT : P Target := do
+          let kind ← nat; let r ← opt nat
+          match kind, r with
+          | 0, r => pure (.peptideN r) | 1, r => pure (.peptideC r) | 2, r => pure (.proteinN r)
+          | 3, r => pure (.proteinC r) | 4, some r => pure (.residue r) | _, _ => failure
+        match run (do
+            let a ← list (do let t ← pT; let m ← nat; pure (t, m))
+            let b ← list (do let t ← pT; let ms ← list nat; pure (t, ms))
+            pure (a, b)) rest with
+        | none => "bad:reply_unreadable"
+        | some (gotS, gotV) =>
+          let extraS := gotS.filter fun g => !wantS.contains g
+          let extraV := gotV.filter fun g => !wantV.contains g
+          if extraS.any (fun g => rejectedS.contains g.2) || extraV.any (fun g => g.2.any rejectedV.contains) then
+            "bad:invalid_key_accepted"
+          else if !extraS.isEmpty || !extraV.isEmpty then "bad:mod_map_entry_unexpected"
+          else if wantS.any (fun w => !gotS.contains w) || wantV.any (fun w => !gotV.contains w) then "bad:mod_map_entry_missing"
+          else if gotS.length != wantS.length || gotV.length != wantV.length then "bad:mod_map_entry_repeated"
+          else "ok"
       | _ => "bad:reply_unreadable"
     pure (exact model (" ".intercalate impl) spec)
   | "pepdisplay" => do
@@ -429,7 +514,8 @@ def handle (op : String) (args impl : List String) : Option Reply :=
               | some got =>
                 if !(d.1.all fun c => Sage.Gen.VALID_AA.contains c) then
                   (if got.isEmpty then "ok" else "bad:invalid_sequence_accepted")
-                else formsVerdict d.1 d.2 varsQ staticsQ max got false
+                else refineKeyVerdict (formsVerdict d.1 d.2 varsQ staticsQ max got false)
+                  (rejectedOnlyMasses vars statics) (got.map (·.1))
             match verdicts.find? (fun v => v.startsWith "bad") with
             | some v => v
             | none => if verdicts.all (· == "ok") then "ok" else "na"
